@@ -57,6 +57,7 @@ func runC05(c *RunCtx) {
 	richPrograms(c, "rich", 96, 400, richBias{MaxJobs: 6, Cancel: 30, Purge: 20, Script: 2, Batches: 30, Waiters: 3, Outcomes: true, Expiry: 10},
 		ExploreOpts{Base: 3, K: c.Q(2, 4), Funcs: anchoredOr(c, append([]string{"Wait", "Response", "Send", "Drain", "WgCounter"}, dispatchFuncs...)), Pairs: c.Q(20, 120), MaxCases: c.Q(200, 4000)})
 	batchPrograms(c, 96, 600)
+	purgeBurstPrograms(c, 16, 64)
 }
 
 func batchPrograms(c *RunCtx, nq, nt int) {
@@ -77,9 +78,12 @@ func runC09(c *RunCtx) {
 
 func runC09Extra(c *RunCtx) { notifyPrograms(c, 40, 200) }
 
+func runC10Extra(c *RunCtx) { purgeBurstPrograms(c, 16, 64) }
+
 func runC10(c *RunCtx) {
 	richPrograms(c, "rich", 96, 400, richBias{MaxJobs: 8, Cancel: 60, Purge: 40, Script: 2, Batches: 20, Waiters: 1, Expiry: 10},
 		ExploreOpts{Base: 3, K: c.Q(2, 4), Funcs: anchoredOr(c, dispatchFuncs), Pairs: c.Q(20, 120), MaxCases: c.Q(200, 4000)})
+	runC10Extra(c)
 }
 
 func runC16(c *RunCtx) {
@@ -94,6 +98,7 @@ func runC17(c *RunCtx) {
 		ExploreOpts{Base: 3, K: c.Q(3, 6), Funcs: anchoredOr(c, []string{"goEventLoop", "processNextJob", "Restart", "Stop", "start", "closeChannels"}), Pairs: c.Q(30, 150), MaxCases: c.Q(200, 3000)})
 	gatePrograms(c, "gate", 32, 160, gateBias{Adapters: true, MaxOps: 12, Expiry: 10, Tune: true, Life: true}, gateOpts(c))
 	lenPrograms(c, 16, 64)
+	batchPrograms(c, 48, 300)
 	for v := 0; v < c.Q(32, 200); v++ {
 		c.Program(fmt.Sprintf("ack/%d", v), func(p *Prog) {
 			cfg := drawAck(p.Rng)
@@ -102,7 +107,7 @@ func runC17(c *RunCtx) {
 	}
 }
 
-func runC01Burst(c *RunCtx) { burstPrograms(c, 12, 48) }
+func runC01Burst(c *RunCtx) { burstPrograms(c, 12, 48); purgeBurstPrograms(c, 8, 32) }
 
 func gatePrograms(c *RunCtx, fam string, nq, nt int, b gateBias, o ExploreOpts) {
 	for v := 0; v < c.Q(nq, nt); v++ {
